@@ -118,10 +118,22 @@ def check_U1(ctx, rep, impl_prefix, raw_field, find_names, find_impl=None):
         if self_id is None:
             continue
 
-        def is_raw_read(n):
-            if n.get('k') == 'mcall' and n['m'] in ('get', 'iter', 'values', 'get_key_value', 'par_iter') and _self_field(n['r'], self_id) == raw_field:
+        # `let elems = &self.elem_ids;` : reads through the alias are reads of the table
+        aliases = {x['p']['id'] for x, _ in walk(b['tree'])
+                   if x.get('k') == 'let' and 'i' in x and x['p'].get('k') == 'bind' and _self_field(x['i'], self_id) == raw_field}
+
+        def is_table(e):
+            if _self_field(e, self_id) == raw_field:
                 return True
-            if n.get('k') == 'index' and _self_field(n['e'], self_id) == raw_field:
+            e = strip(e)
+            while e.get('k') == 'addr' or (e.get('k') == 'unary' and e.get('op') == 'deref'):
+                e = strip(e['e'])
+            return e.get('k') == 'path' and e.get('res') == 'local' and e.get('id') in aliases
+
+        def is_raw_read(n):
+            if n.get('k') == 'mcall' and n['m'] in ('get', 'iter', 'values', 'get_key_value', 'par_iter') and is_table(n['r']):
+                return True
+            if n.get('k') == 'index' and is_table(n['e']):
                 return True
             return False
 
@@ -254,7 +266,7 @@ def check_U1(ctx, rep, impl_prefix, raw_field, find_names, find_impl=None):
                     ch = chain[i + 1]
                     if a.get('k') == 'index' and a['i'] is ch:
                         bad = 'index'
-                    if a.get('k') == 'mcall' and a['m'] in KEYED and a['a'] and a['a'][0] is ch and _self_field(a['r'], self_id) != raw_field:
+                    if a.get('k') == 'mcall' and a['m'] in KEYED and a['a'] and a['a'][0] is ch and not is_table(a['r']):
                         bad = a['m']
                     if a.get('k') in ('call', 'mcall') and cname(callee(a) or {}) in rawkey_methods:
                         off = 1 if a.get('k') == 'mcall' else 0
